@@ -151,6 +151,8 @@ where
     pid_puback: HashSet<PacketIdType>,
     pid_pubrec: HashSet<PacketIdType>,
     pid_pubcomp: HashSet<PacketIdType>,
+    // PUBREC received, PUBREL not sent yet
+    pid_pubrel: HashSet<PacketIdType>,
 
     need_store: bool,
     // Store for retransmission packets
@@ -261,6 +263,7 @@ where
             pid_puback: HashSet::default(),
             pid_pubrec: HashSet::default(),
             pid_pubcomp: HashSet::default(),
+            pid_pubrel: HashSet::default(),
             need_store: false,
             store: GenericStore::new(),
             offline_publish: false,
@@ -828,6 +831,14 @@ where
                     events.push(GenericEvent::NotifyPacketIdReleased(packet_id));
                 }
             }
+
+            // Release packet IDs of exchanges between PUBREC and PUBREL
+            for packet_id in self.pid_pubrel.drain() {
+                if self.pid_man.is_used_id(packet_id) {
+                    self.pid_man.release_id(packet_id);
+                    events.push(GenericEvent::NotifyPacketIdReleased(packet_id));
+                }
+            }
         }
 
         // Discard any partially received frame: it belongs to the closed transport
@@ -1028,6 +1039,7 @@ where
             self.pid_puback.remove(&packet_id);
             self.pid_pubrec.remove(&packet_id);
             self.pid_pubcomp.remove(&packet_id);
+            self.pid_pubrel.remove(&packet_id);
             events.push(GenericEvent::NotifyPacketIdReleased(packet_id));
         }
 
@@ -1317,6 +1329,7 @@ where
         self.pid_puback.clear();
         self.pid_pubrec.clear();
         self.pid_pubcomp.clear();
+        self.pid_pubrel.clear();
         self.store.clear();
     }
 
@@ -1947,6 +1960,7 @@ where
         if self.need_store {
             self.store.add(packet.clone().try_into().unwrap()).unwrap();
         }
+        self.pid_pubrel.remove(&packet_id);
 
         if self.status == ConnectionStatus::Connected {
             self.pid_pubcomp.insert(packet_id);
@@ -1983,6 +1997,7 @@ where
         if self.need_store {
             self.store.add(packet.clone().try_into().unwrap()).unwrap();
         }
+        self.pid_pubrel.remove(&packet_id);
 
         if self.status == ConnectionStatus::Connected {
             self.pid_pubcomp.insert(packet_id);
@@ -3195,6 +3210,7 @@ where
                 let packet_id = packet.packet_id();
                 if self.pid_pubrec.remove(&packet_id) {
                     self.store.erase(ResponsePacket::V3_1_1Pubrec, packet_id);
+                    self.pid_pubrel.insert(packet_id);
                     if self.auto_pub_response && self.status == ConnectionStatus::Connected {
                         let pubrel = v3_1_1::GenericPubrel::<PacketIdType>::builder()
                             .packet_id(packet_id)
@@ -3229,6 +3245,7 @@ where
                     self.store.erase(ResponsePacket::V5_0Pubrec, packet_id);
                     let reason_code = packet.reason_code();
                     if reason_code.is_none() || reason_code.unwrap() == PubrecReasonCode::Success {
+                        self.pid_pubrel.insert(packet_id);
                         if self.auto_pub_response && self.status == ConnectionStatus::Connected {
                             let pubrel = v5_0::GenericPubrel::<PacketIdType>::builder()
                                 .packet_id(packet_id)
